@@ -60,8 +60,14 @@ func render(v ssa.Value, depth int) string {
 		if t, ok := paramText[x]; ok {
 			return t
 		}
+		if n := canonicalRecv(x); n != "" {
+			return n
+		}
 		return x.Name()
 	case *ssa.FreeVar:
+		if n := canonicalCell(x); n != "" {
+			return n
+		}
 		return x.Name()
 	case *ssa.Global:
 		return x.Name()
@@ -70,6 +76,9 @@ func render(v ssa.Value, depth int) string {
 	case *ssa.Builtin:
 		return x.Name()
 	case *ssa.Alloc:
+		if n := canonicalCell(x); n != "" {
+			return "&" + n
+		}
 		if x.Comment != "" {
 			return "&" + x.Comment
 		}
@@ -81,10 +90,16 @@ func render(v ssa.Value, depth int) string {
 			case *ssa.FieldAddr:
 				return render(b.X, depth+1) + "." + FieldOf(b).Name()
 			case *ssa.FreeVar:
+				if n := canonicalCell(b); n != "" {
+					return n
+				}
 				return b.Name()
 			case *ssa.Alloc:
 				if u := Unspill(x); u != ssa.Value(x) {
 					return render(u, depth+1)
+				}
+				if n := canonicalCell(b); n != "" {
+					return n
 				}
 				if b.Comment != "" {
 					return b.Comment
@@ -734,4 +749,47 @@ func pureExprOf(fn *ssa.Function) (ssa.Value, *Path, bool) {
 	}
 	info = pureInfo{ret: ret.ResVals[0], path: ret, ok: true}
 	return info.ret, info.path, true
+}
+
+// canonicalRecv: x is the receiver of a method of a type of the module: the name that type's receivers have on the pinned tree.
+func canonicalRecv(x *ssa.Parameter) string {
+	fn := x.Parent()
+	if fn == nil || fn.Signature.Recv() == nil || len(fn.Params) == 0 || fn.Params[0] != x {
+		return ""
+	}
+	n := NamedOf(fn.Signature.Recv().Type())
+	if n == nil || n.Obj().Pkg() == nil {
+		return ""
+	}
+	return KnownRecv[n.Obj().Pkg().Path()+"."+n.Obj().Name()]
+}
+
+// canonicalCell: v is the variable cell of a receiver (a receiver captured by a function literal is spilled to a cell that is
+// stored once, with the parameter), or a free variable bound to such a cell or to the receiver itself.
+func canonicalCell(v ssa.Value) string {
+	switch x := v.(type) {
+	case *ssa.FreeVar:
+		switch b := FreeVarBinding(x).(type) {
+		case *ssa.Parameter:
+			return canonicalRecv(b)
+		case *ssa.Alloc:
+			return canonicalCell(b)
+		}
+	case *ssa.Alloc:
+		if x.Referrers() == nil {
+			return ""
+		}
+		var prm *ssa.Parameter
+		n := 0
+		for _, ref := range *x.Referrers() {
+			if st, ok := ref.(*ssa.Store); ok && st.Addr == ssa.Value(x) {
+				n++
+				prm, _ = st.Val.(*ssa.Parameter)
+			}
+		}
+		if n == 1 && prm != nil {
+			return canonicalRecv(prm)
+		}
+	}
+	return ""
 }
